@@ -14,6 +14,10 @@
 (*   alt   assignment of the probe keys on a second ring on which every    *)
 (*         Add* is executed as an explicit Remove followed by the Add*,    *)
 (*   altd  number of population keys on which the two rings differ.        *)
+(*   pan   the API calls (get, add, addw, addr, remove; new/set/del for    *)
+(*         the cluster recorder) that PANICKED since the previous event -  *)
+(*         the drivers run every call under recover(); a lookup that       *)
+(*         panicked is logged as "PANIC" in asg/asg2/alt.                  *)
 (* An event is accepted iff the contract of ConsistentHash.tla admits the  *)
 (* step from the current state to the observed vector; then the observed   *)
 (* vector becomes the state.  A rejected event has no successor: the       *)
@@ -38,11 +42,19 @@ OpOf(e) == CASE e.ev = "add"    -> [op |-> "add", n |-> e.n]
 
 IsReAdd(m, o) == o.op \in AddOps /\ m[o.n] # Absent
 
+\* The statement describes what every call RETURNS ("returns one of the currently added nodes",
+\* "reports absence"): a call that panics returns nothing, in no membership is that admitted.
+Panic == "PANIC"
+Returned(e) == /\ Len(e.pan) = 0
+               /\ \A k \in DOMAIN e.asg : e.asg[k] # Panic
+               /\ \A k \in DOMAIN e.asg2 : e.asg2[k] # Panic
+
 \* names of the contract clauses that the observation e violates in state (m, a)
 Failed(m, a, e) ==
   LET o  == OpOf(e)
       m2 == MemAfter(m, o)
-  IN  (IF DOMAIN e.asg = Probe /\ DOMAIN e.asg2 = Probe THEN {} ELSE {"shape"})
+  IN  (IF Returned(e) THEN {} ELSE {"panic"})
+      \cup (IF DOMAIN e.asg = Probe /\ DOMAIN e.asg2 = Probe THEN {} ELSE {"shape"})
       \cup (IF \A k \in DOMAIN e.asg : TotalAt(m2, e.asg[k]) THEN {} ELSE {"total"})
       \cup (IF e.asg2 = e.asg THEN {} ELSE {"unstable"})
       \cup (IF \A k \in DOMAIN e.asg : e.asg[k] # a[k] => MoveOK(m, o, a[k], e.asg[k])
